@@ -569,5 +569,60 @@ pub fn run(ctx: &mut Ctx) {
             }
         }
     }
+    // the validating iterators take the options of the plain one: a budget every document meets on its own is met by
+    // the stream (the iterators enforce it per document), whatever its length
+    {
+        let valid: Vec<GenDoc> = (0..200).map(|_| gen_doc(&mut rng)).filter(|d| d.violated.is_empty()).take(if quick { 6 } else { 30 }).collect();
+        for d in &valid {
+            let mut b = serde_saphyr::budget::Budget::default();
+            // the tightest node limit the document alone passes under
+            let mut lim = 1usize;
+            loop {
+                b.max_nodes = lim;
+                let mut o = opts();
+                o.budget = Some(b.clone());
+                if serde_saphyr::from_str_with_options::<g::Cfg>(&d.text, o).is_ok() || lim > 4096 {
+                    break;
+                }
+                lim += 1;
+            }
+            b.max_documents = 2;
+            let text: String = (0..4).map(|_| format!("---\n{}", d.text)).collect();
+            let mk = || {
+                let mut o = opts();
+                o.budget = Some(b.clone());
+                o
+            };
+            ctx.direct_evaluations += 3;
+            let plain: Vec<bool> = serde_saphyr::read_with_options::<_, g::Cfg>(&mut std::io::Cursor::new(text.as_bytes().to_vec()), mk()).take(8).map(|r| r.is_ok()).collect();
+            let gv: Vec<bool> = serde_saphyr::read_with_options_valid::<_, g::Cfg>(&mut std::io::Cursor::new(text.as_bytes().to_vec()), mk()).take(8).map(|r| r.is_ok()).collect();
+            let vv: Vec<bool> = serde_saphyr::read_with_options_validate::<_, v::Cfg>(&mut std::io::Cursor::new(text.as_bytes().to_vec()), mk()).take(8).map(|r| r.is_ok()).collect();
+            let replay = json!({"kind": "stream_budget", "text": text, "max_nodes": lim});
+            if plain != vec![true; 4] {
+                ctx.fail("stream-iterator-results-differ", format!("[plain read_with_options] four copies of a document that fits max_nodes = {lim}: {plain:?}"), replay.clone());
+            }
+            if gv != plain || vv != plain {
+                ctx.fail("stream-iterator-results-differ", format!("under max_nodes = {lim}, max_documents = 2 the plain iterator gives {plain:?}, garde {gv:?}, validator {vv:?}"), replay);
+            }
+        }
+    }
+    // a repeated key under the last-wins policy: the value is the last occurrence, and so is the reported position
+    {
+        let text = "kind:\n  A:\n    name: abc\n    level: 5\nopt: null\nmap:\n  k:\n    name: okay\n    level: 2\n  k:\n    name: y\n    level: 2\n";
+        let mut o = opts();
+        o.duplicate_keys = serde_saphyr::DuplicateKeyPolicy::LastWins;
+        ctx.direct_evaluations += 1;
+        let replay = json!({"kind": "last_wins", "text": text});
+        match serde_saphyr::from_str_with_options_valid::<g::WithEnum>(text, o) {
+            Ok(_) => ctx.fail("violation-not-reported", format!("{text:?} passes validation under LastWins"), replay),
+            Err(e) => {
+                let rep = parse_report(&e.to_string());
+                match rep.iter().find(|(p, _, _)| p == "map.k.name") {
+                    Some((_, 11, 11)) => {}
+                    other => ctx.fail("violation-at-wrong-position", format!("map.k.name (last occurrence wins) expected at line 11 column 11, reported {other:?}; report: {e}"), replay),
+                }
+            }
+        }
+    }
     let _ = <g::Cfg as Deserialize>::deserialize::<serde::de::value::UnitDeserializer<serde::de::value::Error>>;
 }
